@@ -237,6 +237,16 @@ def parts(tier):
                      "x 2 reporting modes, deleteEntry present/absent; list model after every transition",
                 bounds={"depth": depth + 1, "label_length_cap": LABCAP}, max_depth=depth + 1, prune=_prune),
     ]
+    ugrid = tuple(sorted(D.ULP))
+    useeds = [("I", "t", ugrid[0], ugrid[-1], D.labelled(x)) for x in D.interval_sets(ugrid, 2)]
+    ps.append(BfsPart("insert-delete-intervals-ulp", lambda: useeds, _ops_iv(ugrid), _step_iv,
+                      rule="one insertEntry / deleteEntry step from every tier of <=2 intervals on the ulp-neighbour grid %s with all entries on "
+                           "that grid: overlaps of one ulp are collisions, touches are not" % (ugrid,),
+                      bounds={"depth": 1}, max_depth=1, prune=_prune))
+    upseeds = [("P", "t", ugrid[0], ugrid[-1], D.labelled_points(x, "x")) for x in D.point_sets(ugrid, 3)]
+    ps.append(BfsPart("insert-delete-points-ulp", lambda: upseeds, _ops_pt(ugrid), _step_pt,
+                      rule="the same for equally labelled point tiers on the ulp-neighbour grid (deleteEntry must remove the point given)",
+                      bounds={"depth": 1}, max_depth=1, prune=_prune))
     live_iv = [("I", "t", 0.0, 4.0, ()), ("I", "t", 0.0, 4.0, ((1.0, 2.0, "a"),)), ("I", "t", 0.0, 4.0, ((0.0, 1.0, "a"), (1.0, 3.0, "b")))]
     live_vals = (-1.0, 0.0, 0.5, 1.0, 2.0, 3.0, 5.0)
     ps.append(InputPart("live-sequences-intervals", lambda: ((s0, op1) for s0 in live_iv for op1 in _ops_iv(live_vals)(s0)),
